@@ -11,7 +11,9 @@ import (
 	"github.com/nspcc-dev/neo-go/pkg/config"
 	"github.com/nspcc-dev/neo-go/pkg/core"
 	"github.com/nspcc-dev/neo-go/pkg/core/interop/interopnames"
+	"github.com/nspcc-dev/neo-go/pkg/core/native"
 	"github.com/nspcc-dev/neo-go/pkg/core/native/nativehashes"
+	"github.com/nspcc-dev/neo-go/pkg/core/native/noderoles"
 	"github.com/nspcc-dev/neo-go/pkg/crypto/hash"
 	"github.com/nspcc-dev/neo-go/pkg/crypto/keys"
 	"github.com/nspcc-dev/neo-go/pkg/io"
@@ -23,6 +25,8 @@ import (
 	"github.com/nspcc-dev/neo-go/pkg/util"
 	"github.com/nspcc-dev/neo-go/pkg/vm/emit"
 	"github.com/nspcc-dev/neo-go/pkg/vm/opcode"
+	"github.com/nspcc-dev/neo-go/pkg/vm/stackitem"
+	"github.com/nspcc-dev/neo-go/pkg/wallet"
 )
 
 // The probe contract. check(accs, next, mut) records CheckWitness of every
@@ -40,14 +44,22 @@ import (
 //	                                        frame's own witness check), then GAS.transfer(self, receiver, 0, [accs, next', mut']):
 //	                                        the native contract calls receiver.onNEP17Payment, which runs the same
 //	                                        recording and publishes its result in a "w" notification.
+//	next = [3, next', mut', gas]            Oracle.request(url, nil, "oracleCb", key, gas): the payload [accs, next', mut'] is
+//	                                        stored under key = sha256(payload) (user data is limited to 512 bytes); a LATER
+//	                                        transaction (the oracle response) makes the native Oracle contract call oracleCb,
+//	                                        which runs the same recording and publishes its result in a "w" notification.
 const probeSrc = `package wit
 
 import (
 	"github.com/nspcc-dev/neo-go/pkg/interop"
 	"github.com/nspcc-dev/neo-go/pkg/interop/contract"
+	"github.com/nspcc-dev/neo-go/pkg/interop/native/crypto"
 	"github.com/nspcc-dev/neo-go/pkg/interop/native/gas"
 	"github.com/nspcc-dev/neo-go/pkg/interop/native/management"
+	"github.com/nspcc-dev/neo-go/pkg/interop/native/oracle"
+	"github.com/nspcc-dev/neo-go/pkg/interop/native/std"
 	"github.com/nspcc-dev/neo-go/pkg/interop/runtime"
+	"github.com/nspcc-dev/neo-go/pkg/interop/storage"
 )
 
 func wit(accs []any) []any {
@@ -74,6 +86,11 @@ func run(accs []any, next []any, mut []any) []any {
 			sub = contract.Call(next[1].(interop.Hash160), "check", contract.All, accs, next[2], next[3])
 		} else if kind == 1 {
 			sub = runtime.LoadScript(next[1].([]byte), contract.All)
+		} else if kind == 3 {
+			payload := std.Serialize([]any{accs, next[1], next[2]})
+			key := crypto.Sha256(payload)
+			storage.Put(storage.GetContext(), key, payload)
+			oracle.Request("https://c15.example/w", nil, "oracleCb", key, next[3].(int))
 		} else {
 			nat := []any{}
 			for i := 0; i < len(accs); i++ {
@@ -106,6 +123,14 @@ func OnNEP17Payment(from interop.Hash160, amount int, data any) {
 	d := data.([]any)
 	runtime.Notify("w", run(d[0].([]any), d[1].([]any), d[2].([]any)))
 }
+
+// OracleCb is the callback of the request filed by kind 3: entered by the
+// native Oracle contract while it executes the response transaction.
+func OracleCb(url string, data any, code int, res []byte) {
+	raw := storage.Get(storage.GetReadOnlyContext(), data.([]byte)).([]byte)
+	d := std.Deserialize(raw).([]any)
+	runtime.Notify("w", run(d[0].([]any), d[1].([]any), d[2].([]any)))
+}
 `
 
 // sym is one element of a call chain description.
@@ -113,6 +138,8 @@ func OnNEP17Payment(from interop.Hash160, amount int, data any) {
 //	'A','B','C'  a deployed probe contract (A: group g; B: no group; C: groups g and g2)
 //	'D'          a dynamic script loaded by the previous frame with System.Runtime.LoadScript
 //	'N'          the native GAS contract, entered by transfer; the following symbol is the receiver
+//	'O'          the previous probe files an oracle request; what follows runs in ANOTHER transaction (the oracle
+//	             response): its entry script calls the native Oracle contract, which calls the requester's callback
 type sym = byte
 
 type world struct {
@@ -122,13 +149,20 @@ type world struct {
 	mans     [3][4][]byte // manifest JSON of probe i with group set k (same contract, other groups)
 	gsets    [4][][]byte  // group sets: {}, {g}, {g2}, {g, g2}
 	gasFrame frame
-	g        [3]*keys.PublicKey // g, g2 (used by contracts), g3 (used by nobody)
-	accKey   *keys.PublicKey
-	acc      util.Uint160 // key-derived account of the signer under test
-	decoyG   util.Uint160 // a second signer, Global scope
-	decoyN   util.Uint160 // a third signer, scope None
-	stranger util.Uint160 // never a signer, never a contract
-	noSuch   util.Uint160 // listed in AllowedContracts, never a contract
+	// oracle flows (oracle_test.go): blocks are added through e; the designated
+	// oracle node's key is held by the harness.
+	e           *neotest.Executor
+	oracleFrame frame              // the native Oracle contract
+	respScript  []byte             // the fixed script of every oracle response transaction
+	respFrame   frame              // ... as the entry frame of the callback's invocation
+	oracleNodes neotest.Signer     // 1-of-1 multisignature account of the designated node
+	g           [3]*keys.PublicKey // g, g2 (used by contracts), g3 (used by nobody)
+	accKey      *keys.PublicKey
+	acc         util.Uint160 // key-derived account of the signer under test
+	decoyG      util.Uint160 // a second signer, Global scope
+	decoyN      util.Uint160 // a third signer, scope None
+	stranger    util.Uint160 // never a signer, never a contract
+	noSuch      util.Uint160 // listed in AllowedContracts, never a contract
 }
 
 func detKey(tag string) *keys.PrivateKey {
@@ -148,9 +182,13 @@ func fill(b byte) (u util.Uint160) {
 }
 
 func newWorld(t *testing.T) *world {
-	bc, val, com := chain.NewMultiWithCustomConfig(t, func(c *config.Blockchain) { c.Hardforks = nil })
+	// VerifyTransactions is off as in the shipped main net / test net
+	// configurations: a block is taken as agreed upon by consensus, so the oracle
+	// flows can put request transactions signed by arbitrary accounts (contracts,
+	// plain hashes) into blocks. Test invocations do not depend on the setting.
+	bc, val, com := chain.NewMultiWithCustomConfig(t, func(c *config.Blockchain) { c.Hardforks = nil; c.VerifyTransactions = false })
 	e := neotest.NewExecutor(t, bc, val, com)
-	w := &world{bc: bc}
+	w := &world{bc: bc, e: e}
 	gk := []*keys.PrivateKey{detKey("g1"), detKey("g2"), detKey("g3")}
 	for i, k := range gk {
 		w.g[i] = k.PublicKey()
@@ -189,6 +227,16 @@ func newWorld(t *testing.T) *world {
 		}
 	}
 	w.gasFrame = frame{hash: nativehashes.GasToken, kind: "native", name: "GAS"}
+	w.oracleFrame = frame{hash: nativehashes.OracleContract, kind: "native", name: "Oracle"}
+	w.respScript = native.CreateOracleResponseScript(nativehashes.OracleContract)
+	w.respFrame = frame{hash: hash.Hash160(w.respScript), kind: "entry", name: "oracle-response-script"}
+	nodeKey := detKey("oracle-node")
+	nodeAcc := wallet.NewAccountFromPrivateKey(nodeKey)
+	if err := nodeAcc.ConvertMultisig(1, keys.PublicKeys{nodeKey.PublicKey()}); err != nil {
+		t.Fatal(err)
+	}
+	w.oracleNodes = neotest.NewMultiSigner(nodeAcc)
+	e.NewInvoker(nativehashes.RoleManagement, e.Validator, e.Committee).Invoke(t, stackitem.Null{}, "designateAsRole", int64(noderoles.Oracle), []any{nodeKey.PublicKey().Bytes()})
 	w.accKey = detKey("acc").PublicKey()
 	w.acc = w.accKey.GetScriptHash()
 	w.decoyG, w.decoyN, w.stranger, w.noSuch = fill(0xD1), fill(0xD2), fill(0xCC), fill(0xEE)
@@ -290,6 +338,11 @@ func (w *world) nextArg(targets [][]byte, rest []sym, muts []int8) ([]any, []fra
 		r := w.probeIdx(rest[1])
 		sub, fr := w.nextArg(targets, rest[2:], muts[2:])
 		return []any{2, w.probes[r].Hash, sub, w.mutArg(r, muts[1])}, append([]frame{w.gasFrame, w.pframes[r]}, fr...)
+	case 'O':
+		// The frames after the Oracle marker belong to the response transaction
+		// (splitOracle rearranges them); the callback never changes its groups.
+		sub, fr := w.nextArg(targets, rest[1:], muts[1:])
+		return []any{3, sub, []any{}, oracleGasForResponse}, append([]frame{w.oracleFrame}, fr...)
 	}
 	panic("bad chain symbol")
 }
@@ -362,13 +415,20 @@ func (w *world) script(targets [][]byte, rest []sym, muts []int8) ([]byte, []fra
 
 // validChain tells whether the symbols describe a chain the probes can run:
 // N needs a receiver probe after it and cannot run at or below a dynamic
-// script (read-only call flags).
+// script (read-only call flags). O (at most one) needs a probe right before
+// it (only a deployed contract may file an oracle request) with write flags;
+// the callback starts a fresh invocation with all flags.
 func validChain(c []sym) bool {
-	dyn := false
+	dyn, seenO := false, false
 	for i := 0; i < len(c); i++ {
 		switch c[i] {
 		case 'D':
 			dyn = true
+		case 'O':
+			if dyn || seenO || i == 0 || c[i-1] < 'A' || c[i-1] > 'C' {
+				return false
+			}
+			seenO = true
 		case 'N':
 			if dyn || i+1 >= len(c) || c[i+1] < 'A' || c[i+1] > 'C' {
 				return false
